@@ -524,6 +524,35 @@ pub fn run(ctx: &Ctx, replay: Option<&J>) -> i32 {
         check_sort(ctx, &mut sess, l, &lsrc);
         check_fractional_index(ctx, &mut sess, l, "l", &format!("l = {}", lsrc));
     });
+    // ---- size ladder: long lists built by a short expression (so that the subject stays readable),
+    // with the same laws; sizes sit around powers of two and of ten, where implementations switch
+    // algorithms, grow buffers or hit fixed limits
+    {
+        let sizes: &[usize] = if thorough { &[100, 255, 256, 257, 1000, 1023, 1024, 1025, 4096, 4097, 10000, 65535, 65536, 65537] } else { &[257, 1025] };
+        let mut ladder: Vec<(String, Vec<RV>)> = vec![];
+        for &n in sizes {
+            ladder.push((format!("range({}) via (i => (7 * i + 3) % 11)", n), (0..n).map(|i| RV::Num(((7 * i + 3) % 11) as f64)).collect()));
+            let cyc = [RV::Num(3.0), RV::s("a"), RV::Null, RV::Num(1.0), RV::List(vec![RV::Num(0.0)])];
+            ladder.push((format!("range({}) via (i => [3, \"a\", null, 1, [0]][i % 5])", n), (0..n).map(|i| cyc[i % 5].clone()).collect()));
+            ladder.push((format!("range({}) via (i => {} - i)", n, n), (0..n).map(|i| RV::Num((n - i) as f64)).collect()));
+        }
+        par_for_ctx(ctx, ladder.len(), |i| {
+            let (src, l) = &ladder[i];
+            let mut sess = Session::new();
+            sess.run(PRELUDE);
+            let subj = format!("l = {}", src);
+            let o = sess.run(&subj);
+            if !o.is_ok() {
+                ctx.machinery_error(format!("cannot bind subject {}: {:?}", src, o));
+                return;
+            }
+            ctx.nontrivial(&subj);
+            ctx.outcome("size-ladder-list");
+            run_laws(ctx, &mut sess, &subj, list_laws(l));
+            check_sort(ctx, &mut sess, l, &subj);
+            check_fractional_index(ctx, &mut sess, l, "l", &subj);
+        });
+    }
     // ---- strings
     let mut strings: Vec<String> = sigma_strings(if thorough { 3 } else { 2 });
     strings.extend(["hello", "a,b,,c", "abcabc", " x ", "\u{e9}a", "a\u{e9}", "na\u{ef}ve caf\u{e9}", "\u{1f600}\u{1f600}a", "e\u{301}e\u{301}"].iter().map(|s| s.to_string()));
